@@ -8,7 +8,7 @@ ALL_CHECKS = {
     "C01": {
         "technique": "property-based testing: proptest build-script generation + exhaustive boundary sweeps against an independent RFC 7252 reference encoder (round trip through the decoder); libFuzzer target wire_encode in the thorough tier",
         "text": "Generated-input search with an explicit oracle: every encoded image is compared byte for byte with a reference encoder written from RFC 7252 section 3 and decoded back field by field. Exhaustive over all 65536 first-option numbers, all value lengths across both thresholds and a delta x length boundary grid; random shuffled API scripts elsewhere. A pass outside the exhaustive parts means 'not found in N structured cases'.",
-        "note": TB + " Overflow-checks on and off (quick); udp / no_std feature sets, ASan harness and libFuzzer in the thorough tier.",
+        "note": TB + " Overflow-checks on and off and the udp feature set (quick); wrapping udp / no_std feature sets, ASan harness and libFuzzer in the thorough tier.",
     },
     "C02": {
         "technique": "exhaustive byte-string enumeration + proptest-generated corruptions/prefixes with a decode->re-encode identity oracle; libFuzzer target wire_decode in the thorough tier",
